@@ -112,6 +112,17 @@ class FGen(Gen):
             d = dict(kw.get("loss_details") or {})
             d["layer"] = ([0, 1, 2.5, 0.5] if d.get("layer") not in (0, 0.0) else [1, 4, 2.5, 0.5])[(i - 1) % 4]
             kw["loss_details"] = dict(sorted(d.items()))
+        elif attr in ("hash_detail", "hash_loss", "hash_limit"):
+            # family M: the ONLY difference is a numeric value whose CPython hash collides with the base slice's
+            # (hash(-1) == hash(-2), hash(-1.0) == hash(-2.0)); i-th variant keeps colliding pairs next to each other
+            vals = [-2, -1.0, -2.0, -3][(i - 1) % 4]
+            if attr == "hash_limit":
+                kw["per_occurrence_limit"] = vals
+            else:
+                key, name = ("details", "n") if attr == "hash_detail" else ("loss_details", "layer")
+                d = dict(kw.get(key) or {})
+                d[name] = vals
+                kw[key] = dict(sorted(d.items()))
         elif attr == "detail_present":      # one slice has the key, the others do not
             d = dict(kw.get("details") or {})
             d.pop("zone", None)
@@ -131,11 +142,17 @@ class FGen(Gen):
         from bermuda import Metadata
 
         base = self.base_meta_kwargs()
+        if slice_diff == "hash_limit":
+            base["per_occurrence_limit"] = -1
+        elif slice_diff == "hash_detail":
+            base["details"] = dict(sorted({**(base.get("details") or {}), "n": -1}.items()))
+        elif slice_diff == "hash_loss":
+            base["loss_details"] = dict(sorted({**(base.get("loss_details") or {}), "layer": -1}.items()))
         out = [base]
         for i in range(1, n_slices):
             if slice_diff == "several":
                 kw = base
-                for a in self.r.sample(SLICE_DIFFS[:-1], self.r.randint(2, 3)):
+                for a in self.r.sample(SLICE_DIFFS[:11], self.r.randint(2, 3)):
                     kw = self.vary(kw, a, i)
             else:
                 kw = self.vary(base, slice_diff, i)
@@ -149,7 +166,8 @@ class FGen(Gen):
 
 
 SLICE_DIFFS = ["risk_basis", "country", "currency", "reinsurance_basis", "loss_definition", "per_occurrence_limit",
-               "details", "loss_details", "detail_num", "loss_detail_num", "detail_present", "several"]
+               "details", "loss_details", "detail_num", "loss_detail_num", "detail_present",
+               "hash_detail", "hash_loss", "hash_limit", "several"]
 
 
 def gen_frame_case(rng, k):
@@ -197,6 +215,12 @@ def gen_grid_triangle(rng, k, for_matrix):
         starts.append(cur)
         cur += rp * (1 + (rng.choice([0, 0, 0, 1, 2]) if for_matrix and k % 3 == 0 else 0))
     layout = ["rect", "ragged", "holey", "fixed_evals"][k % 4]
+    gcd_lags = None
+    if for_matrix and k % 5 == 2:
+        # family P: evaluation steps whose gcd is smaller than the smallest step (+0/+6/+15, +0/+4/+10 ...)
+        layout = "gcd_lt_step"
+        gcd_lags = rng.choice([(0, 6, 15), (0, 4, 10), (0, 9, 15), (3, 9, 18), (0, 6, 15, 27), (0, 10, 14)])
+        rp = rng.choice([12, 6, 1, 12]) if rng.random() < 0.8 else rp
     nl = rng.randint(2, 4)
     d0 = rng.choice([0, 0, re_, 2 * re_]) if layout != "fixed_evals" else 0
     inc = for_matrix and (k % 5 == 4)
@@ -204,7 +228,11 @@ def gen_grid_triangle(rng, k, for_matrix):
         layout = "rect"
     n_sl = rng.choice([1, 1, 2, 3]) if for_matrix else 1
     g = FGen(rng)
-    metas, _ = g.metas(n_sl, rng.choice(SLICE_DIFFS[:8]))
+    if for_matrix and k % 4 == 1:
+        n_sl = rng.choice([2, 3, 4])
+        metas, _ = g.metas(n_sl, rng.choice(["hash_detail", "hash_loss", "hash_limit"]))
+    else:
+        metas, _ = g.metas(n_sl, rng.choice(SLICE_DIFFS[:8]))
     fields = sorted(rng.sample(["paid_loss", "reported_loss", "earned_premium"], rng.randint(1, 2 if for_matrix else 1)))
     cells = []
     last_end = starts[-1] + rp - 1
@@ -215,6 +243,8 @@ def gen_grid_triangle(rng, k, for_matrix):
                 e0 = last_end
                 lags = [e0 + j * re_ - pe_id for j in range(nl)]
                 lags = [x for x in lags if x >= 0]
+            elif gcd_lags is not None:
+                lags = list(gcd_lags)
             else:
                 lags = [d0 + j * re_ for j in range(nl)]
             if layout == "ragged":
@@ -935,6 +965,33 @@ def directed_probes(ctx, tmp):
                               ("annual-straddle", (-14, 12, 12)), ("monthly-straddle", (-3, 1, 3))]:
         probes.append((f"PRE1970/matrix/{nm}", grid(s0, rp, re_), "matrix", {"kind": "matrix_pre1970_month_ids"}))
         probes.append((f"PRE1970/rich/{nm}", grid(s0, rp, re_), "rich", {"kind": "matrix_pre1970_month_ids"}))
+    # family M: slices distinguished ONLY by values whose CPython hashes collide
+    mcls = {"kind": "hash_colliding_slice_values"}
+    for nm, mk_m, pairs in [
+        ("detail", lambda v: Metadata(details={"layer": v}), [(-1, -2), (-1.0, -2.0), (0, 2 ** 61 - 1)]),
+        ("loss_detail", lambda v: Metadata(loss_details={"layer": v}), [(-1, -2), (-2.0, -1.0)]),
+        ("limit", lambda v: Metadata(per_occurrence_limit=v), [(-1, -2), (0, 2 ** 61 - 1), (-2, -1)]),
+    ]:
+        for va, vb in pairs:
+            tag = f"{nm}/{va}|{vb}"
+            tcsv = Triangle([mkc(*P, D(2020, 3, 31) if j == 0 else D(2020, 6, 30), {"paid_loss": 1.0 + i + 10 * j}, mk_m(v))
+                             for i, v in enumerate((va, vb)) for j in range(2)])
+            probes.append((f"HASH/csv/{tag}", tcsv, "csv", mcls))
+            tsam = Triangle([mkc(*P, D(2020, 3, 31), {"paid_loss": a + i}, mk_m(v)) for i, v in enumerate((vb, va))])
+            probes.append((f"HASH/csv-samples/{tag}", tsam, "csv", mcls))
+            tmx = Triangle([mkc(ms(600 + 3 * p_), me(602 + 3 * p_), me(602 + 3 * p_ + 3 * j), {"paid_loss": 1.0 + i + p_ + 10 * j}, mk_m(v))
+                            for i, v in enumerate((va, vb)) for p_ in range(2) for j in range(3)])
+            probes.append((f"HASH/matrix/{tag}", tmx, "matrix", mcls))
+            probes.append((f"HASH/rich/{tag}", tmx, "rich", mcls))
+    # family P: evaluation steps whose gcd is smaller than the smallest step; whole periods missing
+    pcls = {"kind": "matrix_eval_gcd_smaller_than_step"}
+    for nm, (s0, rp_, lags, starts) in [("annual+0+6+15", (576, 12, (0, 6, 15), (0, 12))), ("half-year+0+4+10", (600, 6, (0, 4, 10), (0, 6))),
+                                        ("annual-2018-2020-without-2019", (576, 12, (0, 6, 15), (0, 24))),
+                                        ("H1-only half-years", (600, 6, (0, 6, 18), (0, 12, 24))), ("monthly+0+9+15", (600, 1, (0, 9, 15), (0, 1, 2)))]:
+        tp = Triangle([mkc(ms(s0 + st), me(s0 + st + rp_ - 1), me(s0 + st + rp_ - 1 + lag), {"paid_loss": 1.0 + st + lag})
+                       for st in starts for lag in lags])
+        probes.append((f"GCD/matrix/{nm}", tp, "matrix", pcls))
+        probes.append((f"GCD/rich/{nm}", tp, "rich", pcls))
     fid = lambda y, m: (y - 1970) * 12 + m - 1  # noqa: E731
     fcls = {"kind": "century_february_month_length"}
     for nm, (s0, rp, re_) in [("2100-monthly", (fid(2099, 12), 1, 1)), ("2100-quarterly", (fid(2099, 9), 3, 3)),
